@@ -5,7 +5,6 @@ tree is a forest of polytomies directly above the samples (multiple roots).  Mut
 samples (they map to the edge covering their site) and, optionally, above the parents (roots:
 they map to no edge)."""
 
-import numpy as np
 import tskit
 from hypothesis import strategies as st
 
